@@ -1,6 +1,7 @@
 package main
 
 import (
+	"github.com/go-i2p/common/data"
 	"bytes"
 	"crypto/sha256"
 	"fmt"
@@ -18,6 +19,16 @@ func init() { props["C07"] = runC07 }
 func runC07(c *Ctx) {
 	r := c.R
 	one := func(id Ident, tail []byte) {
+		// other users of the library's hashing between our calls: a streaming hash whose reader fails
+		// part-way, a streaming hash that succeeds, a one-shot hash of unrelated data. A hash is a
+		// function of its own input only, whatever was hashed (or abandoned) before
+		if junk := r.Bytes(1 + r.Intn(200)); true {
+			data.HashReader(&failingReader{b: junk, failAt: r.Intn(len(junk) + 1)})
+			hr, herr := data.HashReader(bytes.NewReader(junk))
+			wantJ := sha256.Sum256(junk)
+			c.Check("hash_is_sha256_of_wire_bytes", herr == nil && hr == wantJ && data.HashData(junk) == wantJ, "HashReader / HashData", [][]byte{junk}, "",
+				"the library's SHA-256 of a byte string differs from crypto/sha256 after an abandoned streaming hash")
+		}
 		w := id.Encode()
 		in := cat(w, tail)
 		h := sha256.Sum256(w)
@@ -152,4 +163,20 @@ func runC07(c *Ctx) {
 		}
 		one(id, r.Bytes(r.Intn(5)))
 	}
+}
+
+// failingReader delivers b[:failAt] and then fails
+type failingReader struct {
+	b      []byte
+	failAt int
+	off    int
+}
+
+func (f *failingReader) Read(p []byte) (int, error) {
+	if f.off >= f.failAt {
+		return 0, fmt.Errorf("read failed after %d bytes", f.off)
+	}
+	n := copy(p, f.b[f.off:f.failAt])
+	f.off += n
+	return n, nil
 }
